@@ -422,6 +422,15 @@ def oracle_xml_tree(case):
     doc = case['doc']
     text = G.write_xml(doc, random.Random(case.get('wseed', 0)))
     want = G.tree_events(doc)
+    if not has_surrogate(text):
+        # the premise "well-formed document", decided by an independent Expat (its own handlers, no genshi): the
+        # generator only writes well-formed documents, but a shrunk or hand-written tree (empty names, duplicate
+        # attributes, ...) may not be one; the property says nothing about the tree it was written from then.
+        from xml.parsers import expat
+        ref = IndependentExpat().run(text.encode('utf-8'))
+        if ref[0] == 'err' and ref[3] != expat.errors.codes[expat.errors.XML_ERROR_UNDEFINED_ENTITY]:
+            stat('oracle:xml-tree:not-well-formed')
+            return None
     try:
         ev, ex = list(gi.XML(text)), None
     except BaseException as e2:   # noqa
